@@ -98,6 +98,9 @@ BAD_VALUES = ['Foo', 'U:Foo', 'M:Foo', 'X:Foo', 'Glycan:Foo', 'Formula:Xx2', 'Ob
               'Obs:', 'Obs:+-1',
               # words and Python-only literals that int() / float() would take for numbers
               'NAN', 'nan', 'INF', 'inf', 'Infinity', '-inf', '1_0', '1e400', ' 1', '1 ',
+              'Obs:nan', 'Obs:inf', 'Obs:1_0', 'U:+inf', 'U:+1_0', 'M:+nan', 'X:+1_0',
+              # unbalanced brackets inside a formula (balanced for the surrounding notation in the labile position)
+              'Formula:C]', 'Formula:[[13C]]', 'Formula:]', 'Formula:C2]H',
               # case variants of resolvable spellings (names, formulas and glycan names are case-sensitive)
               'acetyl', 'OXIDATION', 'phospho', 'ACETYL', 'Formula:c2h2o', 'Glycan:hexnac', 'U:acetyl', 'carbamidomethyl']
 WARM_UP = ['Acetyl', 'Oxidation', 'Phospho', 'Formula:C2H2O', 'Glycan:HexNAc', 'U:Acetyl', 'Carbamidomethyl']
@@ -146,6 +149,8 @@ def check_deferred(case) -> Result:
             r.fail('asking for the mass or composition of an unresolvable modification raises a ValueError-family error',
                    f'C09/deferred/{pos}/{fn_name}-raises-{type(e).__name__}', error=str(e)[:100], **ctx)
             continue
+        if any(c in v for c in '[]<>{}'):
+            continue  # a bracket inside the value changes what the surrounding notation reads as the value: only "returns or raises cleanly"
         same = (abs(got - base) < 1e-9) if isinstance(got, (int, float)) else (got == base)
         if not same and pos != 'isotope' and fn_name != 'comp':  # (a composition may legitimately echo a spelled but unknown element)
             # the corpus values are unresolvable by the independent reference (pv/refmods.py): a value, even a non-zero one, is wrong
